@@ -1,6 +1,7 @@
 import Driver.Proto
 import PolyVerif.Model.GltfSpec
 import PolyVerif.Model.GltfDedup
+import PolyVerif.Model.GltfTopo
 
 /-
   C06 driver: parses scene descriptions / parsed-document summaries from the harness, answers with the model's
@@ -408,19 +409,22 @@ def handle (op : String) (args : List String) : Option String :=
   match op with
   | "c06.doc" => do
       let (s, _) ← run (do let _ ← tok; pScene) args
-      match writeScene s with
+      match writeSceneT s with
       | .ok w => pure (" ".intercalate (docToks w.doc))
-      | .error _ => pure "err"
+      | .err _ => pure "err"
+      | .panic => pure "panic"
   | "c06.bin" => do
       let (s, _) ← run pScene args
-      match writeScene s with
+      match writeSceneT s with
       | .ok w => pure (bytesTok w.buf)
-      | .error _ => pure "err"
+      | .err _ => pure "err"
+      | .panic => pure "panic"
   | "c06.glb" => do
       let ((js, s), _) ← run (do let j ← pBytes; let s ← pScene; pure (j, s)) args
-      match writeScene s with
+      match writeSceneT s with
       | .ok w => pure (bytesTok (glbFrame js w.buf))
-      | .error _ => pure "err"
+      | .err _ => pure "err"
+      | .panic => pure "panic"
   | "c06.holds.valid" => do
       let ((d, seen, b), _) ← run (do
         let d ← pDoc
@@ -454,6 +458,24 @@ def handle (op : String) (args : List String) : Option String :=
         let b ← pBytes
         pure (s, d, b)) args
       pure (boolStr (carriesScene s d b))
+  | "c06.topo" => do
+      -- the predicates of gltf_topo_carried_iff / gltf_mode_index_iff and the document-level count check, evaluated on
+      -- the IMPLEMENTATION's document and buffer; the harness states what the theorems predict from the scene
+      let ((s, d, b), _) ← run (do
+        let s ← pScene
+        let d ← pDoc
+        kw "B"
+        let b ← pBytes
+        pure (s, d, b)) args
+      pure (boolStr (topoCarried s d) ++ " " ++ boolStr (modeIndexOK s d b) ++ " " ++ boolStr (docModeCountOK d))
+  | "c06.holds.topo" => do
+      let ((s, d, b), _) ← run (do
+        let s ← pScene
+        let d ← pDoc
+        kw "B"
+        let b ← pBytes
+        pure (s, d, b)) args
+      pure (boolStr (topoCarried s d && modeIndexOK s d b && docModeCountOK d))
   | "c06.holds.dedup" | "c06.holds.dedup_texxform" | "c06.holds.dedup_texxform_witness" => do
       let ((s, d), _) ← run (do
         let s ← pScene
